@@ -144,6 +144,19 @@ theorem fresh_binding_accepted (s : Space) (o : Nat) (n : String) (hn : s.hasNam
     simp [hn, ho]
   · simp [Space.frames, allPairs]
 
+/-- **…lifted to every history** (mini-round): after ANY successful operation sequence from the empty
+    namespace, a name that is not visible can be given to an object that has no name — the extended history
+    succeeds, the pair is visible afterwards, and the new state is again one in which names ↔ objects is a
+    bijection off the reserved names. -/
+theorem history_fresh_binding_accepted (ops : List Op) (s : Space) (h : run {} ops = .ok s) (o : Nat)
+    (n : String) (hn : s.hasName n = false) (ho : s.hasObj o = false) :
+    ∃ s', run {} (ops ++ [.set n o]) = .ok s' ∧ (o, n) ∈ allPairs s'.frames ∧ Inv s' := by
+  obtain ⟨s', hs', hm⟩ := fresh_binding_accepted s o n hn ho
+  have hr : run {} (ops ++ [.set n o]) = .ok s' := by
+    rw [run_append ops {} _ s h]
+    simp only [run, step, hs']
+  exact ⟨s', hr, hm, ops_inv _ s' hr⟩
+
 /-- `Scope.update` (naming a node and its outputs) keeps the invariant of both namespaces. -/
 theorem update_keeps_inv (sc sc' : Scope) (pfx opId nm : String) (nodeId : Nat) (outs : List OutVar)
     (h : SInv sc) (hs : sc.update pfx nodeId opId outs = .ok (nm, sc')) : SInv sc' :=
@@ -552,6 +565,7 @@ example : outcome (run {} [.set "x" 1, .reserve "Inline_0__x", .set "y" 2, .push
   decide
 -- a child namespace sees its parent's names
 example : outcome (run {} [.set "x" 1, .push, .set "x" 2]) = some .scope := by decide
+example : outcome (run {} ([.set "x" 1, .push, .enum "x", .reserve "r"] ++ [.set "y" 2])) = none := by decide
 example : outcome (run {} ([.set "x" 1, .push, .enum "x", .set "y" 2] ++ .set "x" 3 :: [.pop, .del "x"])) = some .scope := by
   decide
 example : outcome (run {} ([.reserve "Inline_0__t", .push] ++ .reserve "Inline_0__t" :: [.pop])) = some .scope := by decide
